@@ -46,24 +46,24 @@ package s3
 
 // the backend is configured with exactly the bucket and prefix it is given
 //@ func NewPersist
-//@ tags C18
+//@ tags C03 C18
 //@ modifies W Box.Bytes@fresh Arr.Any@fresh
-//@ ensures fields [C18] (and (= (S_Persist.s3 result) client) (= (S_Persist.BucketName result) bucketName) (= (S_Persist.Prefix result) prefix) (= (S_Persist.EndpointURL result) endpointURL))
+//@ ensures fields [C03 C18] (and (= (S_Persist.s3 result) client) (= (S_Persist.BucketName result) bucketName) (= (S_Persist.Prefix result) prefix) (= (S_Persist.EndpointURL result) endpointURL))
 
 //@ func (*Persist).Load
-//@ tags C18
+//@ tags C03 C18
 //@ modifies W Box.Bytes@fresh Arr.Any@fresh s3.GetObjectInput.*@fresh s3.GetObjectOutput.*@fresh
 //@ requires nn (and (> p 0) (not (isNil (Persist.s3 H p))))
-//@ ensures ok [C18] (=> (= err anil) (and (ohas H0 (Persist.BucketName H0 p) (cat (Persist.Prefix H0 p) name)) (= (bs.val result0) (odata H0 (Persist.BucketName H0 p) (cat (Persist.Prefix H0 p) name)))))
-//@ ensures missing [C18] (=> (not (ohas H0 (Persist.BucketName H0 p) (cat (Persist.Prefix H0 p) name))) (isErr err))
+//@ ensures ok [C03 C18] (=> (= err anil) (and (ohas H0 (Persist.BucketName H0 p) (cat (Persist.Prefix H0 p) name)) (= (bs.val result0) (odata H0 (Persist.BucketName H0 p) (cat (Persist.Prefix H0 p) name)))))
+//@ ensures missing [C03 C18] (=> (not (ohas H0 (Persist.BucketName H0 p) (cat (Persist.Prefix H0 p) name))) (isErr err))
 
 //@ func (Persist).Store
-//@ tags C18
+//@ tags C03 C18
 //@ modifies W G.s3Has G.s3Data Box.Bytes@fresh Arr.Any@fresh s3.PutObjectInput.*@fresh Persist.*@fresh
 //@ requires nn (not (isNil (S_Persist.s3 p)))
-//@ ensures ok [C18] (=> (= err anil) (and (ohas H (S_Persist.BucketName p) (cat (S_Persist.Prefix p) name)) (= (odata H (S_Persist.BucketName p) (cat (S_Persist.Prefix p) name)) (bs.val b))))
-//@ ensures fail [C18] (=> (isErr err) (and (= (G.s3Has H) (G.s3Has H0)) (= (G.s3Data H) (G.s3Data H0))))
-//@ ensures frame [C18] (OthersSameS3 H0 H (S_Persist.BucketName p) (cat (S_Persist.Prefix p) name))
+//@ ensures ok [C03 C18] (=> (= err anil) (and (ohas H (S_Persist.BucketName p) (cat (S_Persist.Prefix p) name)) (= (odata H (S_Persist.BucketName p) (cat (S_Persist.Prefix p) name)) (bs.val b))))
+//@ ensures fail [C03 C18] (=> (isErr err) (and (= (G.s3Has H) (G.s3Has H0)) (= (G.s3Data H) (G.s3Data H0))))
+//@ ensures frame [C03 C18] (OthersSameS3 H0 H (S_Persist.BucketName p) (cat (S_Persist.Prefix p) name))
 
 //@ func (Persist).NodeURLPrefix
 //@ tags C18
